@@ -46,8 +46,8 @@ Not decided here (and why):
   * integer division: symbolic SAT dividers do not terminate (tried: every form timed out at 300 s) -- left out.
   * int64 multiply needs no 32-bit-half emulation in this code base (scalar loop or vpmullq), so ATOMS applies to it everywhere.
   * complex SIMD vectors (split real/imaginary representation): + - conj multiply divide rcp and the masked store are covered by
-    complex_arith_cases / complex_mask_store_case below, sum() and real()/imag() by complex_reduce_cases; abs, arg, norm,
-    magnitude, product(), dot() and mixed scalar forms are not.
+    complex_arith_cases / complex_mask_store_case below, sum() and real()/imag() by complex_reduce_cases, norm() and magnitude() by complex_norm_case; abs,
+    arg, product(), dot(), minimum()/maximum() and mixed scalar forms are not.
   * SIMDVector<float|double,avx512>::minimum()/maximum() do not exist (C06 acceptance finding): no unit can be compiled.
   * set(n0,...,n_{N-1}) is specified in the Intel `_mm_set_*` argument order (last argument is lane 0), which is what every
     specialisation and the generic fallback document.
@@ -550,6 +550,24 @@ def complex_reduce_cases(base, abi, lanes, cfg):
                         head + '    va.%s().store(c, false);' % part, [a, c], [(c, i, E.inp(a, 2 * i + off)) for i in range(lanes)], 'SYM', cfg))
     return out
 
+def complex_norm_case(base, abi, lanes, cfg, fn, variant):
+    """norm() == ar*ar + ai*ai and magnitude() == sqrt(ar*ar + ai*ai) lane by lane (vertical operations returning a real vector).
+    UF on pipeline P0; the sum of the two squares may be contracted into one multiply-add: alternative group as for * and /."""
+    C = 'std::complex<%s>' % base.cpp
+    a = Buf('a', base, 2 * lanes, 'in'); c = Buf('c', base, lanes, 'out')
+    body = ('    using V = SIMDVector<%s,simd_abi::%s>;\n    static_assert(V::Size == %d, "lane count");\n'
+            '    V va(reinterpret_cast<const %s*>(a), false);\n    va.%s().store(c, false);' % (C, abi, lanes, C, fn))
+    ens = []
+    for i in range(lanes):
+        ar, ai = E.inp(a, 2 * i), E.inp(a, 2 * i + 1)
+        d = _prod_sum(ar, ar, ai, ai, False, variant)
+        ens.append((c, i, d.sqrt() if fn == 'magnitude' else d))
+    cfg0 = Cfg(cfg.isa, cfg.std, cfg.macros, pipe='P0')
+    grp = 'C08/c%s/c%s/%s/%s' % (fn, base.name, abi, cfg0.tag())
+    cs = Case(grp + '/alt-' + variant, 'C08', body, [a, c], ens, 'UF', cfg0)
+    cs.alt_group = grp
+    return cs
+
 def complex_arith_cases(isa, thorough):
     out = []
     abis = {'sse2': [('sse', 16)], 'sse4.2': [('sse', 16)], 'avx': [('avx', 32), ('sse', 16)], 'avx2': [('avx', 32), ('sse', 16)],
@@ -559,6 +577,9 @@ def complex_arith_cases(isa, thorough):
         for base in (DBL, FLT):
             lanes = nbytes * 8 // base.bits
             out += complex_reduce_cases(base, abi, lanes, Cfg(isa))
+            for fn in ('norm', 'magnitude'):
+                for v in (['plain', 'fma1', 'fma2'] if fma else ['plain']):
+                    out.append(complex_norm_case(base, abi, lanes, Cfg(isa), fn, v))
             for op in ('add', 'sub', 'mul', 'div', 'rcp', 'conj'):
                 variants = ['plain']
                 if op in ('mul', 'div', 'rcp') and fma: variants = ['plain', 'fma1', 'fma2']
@@ -593,7 +614,7 @@ def cases(tier, seed):
     return res
 
 def evidence_extra(tier):
-    return {'not_decided': ['rcp/rsqrt relative error bounds', 'product() of 16-lane vectors', 'integer division', 'complex SIMD vectors: abs arg norm magnitude product dot mixed-scalar forms',
+    return {'not_decided': ['rcp/rsqrt relative error bounds', 'product() of 16-lane vectors', 'integer division', 'complex SIMD vectors: abs arg product dot minimum maximum mixed-scalar forms',
                             'rounding of float sum()/dot() (proved: each lane / product exactly once)']}
 
 # ---- supporting static fact: no integer lane access through incompatible pointer casts ------------------------------
